@@ -14,6 +14,7 @@ var wordPool = []string{
 	"hello", "world", "a", "=", "==", "=3D", "=20", "=\r\n", "café", "日本語", "\U0001F600", ".", "..", "...",
 	"From ", "--", "--x", "----boundary", "--=_NextPart", "x y", "\t", " ", "  ", "=?UTF-8?q?x?=", "<html>", "</p>",
 	"0123456789", "The quick brown fox jumps over the lazy dog", ";", ":", "\"", "\\", "_", "?", "?=", "=?",
+	"%s", "%d%%", "{{.}}", "<script>", "&amp;", "\x00",
 }
 
 // lineGen draws one line of text (no line terminator).
